@@ -79,6 +79,8 @@ fn main() {
 		"rowan" => run_lines(c17cmd::rowan),
 		"spans" => run_lines(c17cmd::spans),
 		"loc" => run_lines(c17cmd::loc),
+		"textall" => run_lines(c17cmd::textall),
+		"errjs" => run_lines(c17cmd::errjs),
 		"version" => println!("jrharness 1"),
 		_ => {
 			eprintln!("usage: jrharness <eval|...>");
